@@ -1,4 +1,5 @@
 //! Reference models ("oracles").  Written from the property texts, in plain
 //! Rust; nothing in here calls into microscpi.
 pub mod header;
+pub mod literal;
 pub mod msg;
